@@ -419,7 +419,16 @@ def check_case(case) -> Obs:
     if stream == "invalid" and dexc is None:
         obs.bad("C13/invalid-accepted", f"{dname}(wells={wells}, tips={case['tips']}, volume={case['vols']}, pos=({case['grid']},{case['site']}), arm={case['arm']}, lc={case['lc']!r}, max_volume={M}) [{case['bad']}] returned {direct!r}")
     if exc is None and dexc is None and (len(new) != 1 or new[0] != direct):
-        obs.bad("C13/direct-differs", f"{dname} returns {direct!r}, the worklist method appended {new}")
+        # not the same text: then at least the same command (type, liquid class, per-tip volumes, position, selection, arm)
+        same = False
+        if len(new) == 1:
+            try:
+                fa, fb = gwl.parse_record(new[0]), gwl.parse_record(direct)
+                same = fa.type == fb.type and {k: (v if k != "slots" else [None if x is None else Fraction(x) for x in v]) for k, v in fa.f.items()} == {k: (v if k != "slots" else [None if x is None else Fraction(x) for x in v]) for k, v in fb.f.items()}
+            except Exception:  # noqa
+                same = False
+        if not same:
+            obs.bad("C13/direct-differs", f"{dname} returns {direct!r}, the worklist method appended {new}")
     if exc is None and dexc is not None and stream == "core" and not (isinstance(case["vols"], list) and case.get("vols_container", "list") != "list"):
         obs.bad("C13/valid-rejected", f"{dname} raised {type(dexc).__name__}: {dexc} for a call the worklist method accepted ({new})")
     if M == 950 and stream != "invalid" and dexc is None:
